@@ -122,6 +122,9 @@ func (fx *fnExec) callStatic0(callee *ssa.Function, args []Val, bindings []Val, 
 		return m(fx, args, st, pos, rt)
 	}
 	c := ex.L.contractFor(callee)
+	if ex.HavocCallsC != nil && ex.AbstractNames[callee.Name()] && !(c != nil && c.Pure) {
+		return fx.havocCall(name, callee, st, rt)
+	}
 	if c != nil && c.Pure && callee.Blocks != nil {
 		v, _ := ex.runFunc(callee, fx.softMaterializeArgs(args), nil, st.clone(), false, c)
 		return v
@@ -316,6 +319,12 @@ func (fx *fnExec) applyContract(c *Contract, callee *ssa.Function, args []Val, s
 		}
 	}
 	for i, cl := range c.Ensures {
+		if strings.Contains(cl.Src, "ghost(") {
+			// a postcondition over the callee's own ghost counters says nothing the caller can use: the
+			// counters of the caller are different ones (evaluating it here would constrain those)
+			ex.Dropped["postcondition over ghost counters of callee "+name+" is not assumed at its call sites"] = true
+			continue
+		}
 		t := env2.evalBool(cl)
 		// a clause with a recorded known finding is only assumed outside the failing region
 		if kf := knownFor(fmt.Sprintf("%s#post.%d", name, i+1)); kf != nil {
@@ -454,6 +463,7 @@ func (fx *fnExec) callSiteHooks(callee *ssa.Function, args []Val, st *State, pos
 			continue
 		}
 		fx.callCount[fmt.Sprintf("assert:%d:%s", i, a.Callee)]++
+		noteAssertFired(fx.c, i)
 		if a.Nth != 0 && a.Nth != fx.callCount[fmt.Sprintf("assert:%d:%s", i, a.Callee)] {
 			continue
 		}
@@ -505,6 +515,19 @@ func (fx *fnExec) callSiteHooks(callee *ssa.Function, args []Val, st *State, pos
 func (fx *fnExec) invoke(recv Val, m *types.Func, args []Val, st *State, pos token.Pos, rt types.Type) Val {
 	ex := fx.ex
 	it := recv.T
+	// the dynamic type is known (the interface value was made from a concrete type in this unit):
+	// call that type's method directly, through its contract or body
+	if recv.C[0].IsConst() && recv.C[0].Val != nil && recv.C[0].Val.IsInt64() {
+		if dt, ok := ex.tagType[int(recv.C[0].Val.Int64())]; ok {
+			if sel := ex.L.Prog.MethodSets.MethodSet(dt).Lookup(m.Pkg(), m.Name()); sel != nil {
+				if fn := ex.L.Prog.MethodValue(sel); fn != nil {
+					rv := ex.unbox(dt, recv.C[1])
+					return fx.callStatic(fn, append([]Val{rv}, args...), nil, st, pos, rt)
+				}
+			}
+		}
+	}
+	fx.invokeHooks(m, recv, args, st, pos)
 	// contract on the interface method?
 	iname := typeName(it) + "." + m.Name()
 	if named, ok := it.(*types.Named); ok && named.Obj().Pkg() != nil {
@@ -522,18 +545,6 @@ func (fx *fnExec) invoke(recv Val, m *types.Func, args []Val, st *State, pos tok
 		impls := ex.implementations(named, m)
 		if len(impls) > 0 && len(impls) <= 48 {
 			return fx.dispatch(recv, impls, args, st, pos, rt, iname)
-		}
-	}
-	// the dynamic type is known (the interface value was made from a concrete type in this unit):
-	// call that type's method directly, through its contract or body
-	if recv.C[0].IsConst() && recv.C[0].Val != nil && recv.C[0].Val.IsInt64() {
-		if dt, ok := ex.tagType[int(recv.C[0].Val.Int64())]; ok {
-			if sel := ex.L.Prog.MethodSets.MethodSet(dt).Lookup(m.Pkg(), m.Name()); sel != nil {
-				if fn := ex.L.Prog.MethodValue(sel); fn != nil {
-					rv := ex.unbox(dt, recv.C[1])
-					return fx.callStatic(fn, append([]Val{rv}, args...), nil, st, pos, rt)
-				}
-			}
 		}
 	}
 	fx.nopanic("nil", st, Neq(recv.C[0], IntC(0)), pos)
@@ -763,6 +774,10 @@ func (fx *fnExec) builtin(b *ssa.Builtin, cc *ssa.CallCommon, st *State, pos tok
 		return Val{}
 	case "print", "println":
 		return Val{}
+	case "close":
+		if fx.abstractOK("close of a channel (no effect in the sequential model)") {
+			return Val{}
+		}
 	case "clear":
 		x := args[0]
 		if sl, ok := x.T.Underlying().(*types.Slice); ok {
